@@ -247,11 +247,11 @@ fn history(ctx: &mut Ctx, rng: &mut Rng, base: &Engine, rv: &RefVoice, descr: &s
 pub fn run(ctx: &mut Ctx) {
     let env = Env::new(ctx);
     let bundled = env.load_bundled();
-    let n = ctx.n(2000, 60000);
+    let n = ctx.n(2000, 600000);
     ctx.run_cases("bundled", n, false, |ctx, rng, _| {
         history(ctx, rng, &bundled, &env.bundled_ref, "bundled");
     });
-    let n = ctx.n(300, 4000);
+    let n = ctx.n(300, 40000);
     ctx.run_cases("generated", n, false, |ctx, rng, _| {
         let o = VoiceOpts::random(rng);
         match load_synthetic(&env, &o, rng) {
